@@ -28,7 +28,9 @@ TRUSTED = [
 ]
 
 TOKENS = ["a", "b", ".", "%a", "%d", "[ab]", "[^a]", "[a-b]", "*", "+", "-", "?", "^", "$", "(", ")", "()",
-          "%1", "%bab", "%f[a]", "%%", "[c-a]"]        # last: a reversed range (denotes the empty set)
+          "%1", "%bab", "%f[a]", "%%", "[c-a]", "%f[^a]"]
+# the last two: a reversed range (denotes the empty set); a frontier on a complemented set (contains \0, so the
+# virtual \0 before the subject and after its end matters)
 QUANT = {"*", "+", "-", "?"}
 REPLS = ["x", "", "%0", "%1", "<%1>", "%%", "%2", "%1%0", "x%", "%y"]
 BIG = 1 << 40
@@ -579,7 +581,7 @@ def run(tier, seed):
     ck.cov["patterns_by_token_count"] = npat
     ck.cov["exhaustive"] = False
     return ck.finish(
-        rule="(pattern, subject, 0-based init, replacement, max-n, cpu budget) tuples: every pattern of <= 2 tokens over the 21-token "
+        rule="(pattern, subject, 0-based init, replacement, max-n, cpu budget) tuples: every pattern of <= 2 tokens over the 23-token "
              "alphabet x every subject of length <= 3 over {a,b,c} x every init in 0..len+1, plus sampled longer subjects; a "
              "deterministic slice of the 3- and 4-token patterns x sampled subjects of length <= 5 (sizes in patterns_by_token_count); "
              "random patterns of up to 13 tokens over a 52-token alphabet on subjects up to 24 bytes incl. \\0 and \\xff; a malformed "
